@@ -8,7 +8,7 @@ from .common.httpgen import generate as _gen
 from .common.codec import hx, unhx
 
 PROPERTY = "C03"
-LEAN_MODULES = ["AioProps.C03", "AioProps.C03Main", "AioProps.C03Chunked", "AioProps.C03Segments"]
+LEAN_MODULES = ["AioProps.C03", "AioProps.C03Main", "AioProps.C03Chunked", "AioProps.C03Segments", "AioProps.C01Length"]
 THEOREMS = [
     "Aio.Http.findCRLF_append_stable",
     "Aio.Http.findSep_append_stable",
@@ -39,6 +39,8 @@ THEOREMS = [
     "Aio.Http.feed_anyBody",
     "Aio.Http.feed_failed",
     "Aio.Http.feed_segments",
+    "Aio.Http.close_delimited_body_exact",
+    "Aio.Http.bodiless_takes_nothing",
 ]
 RULE = ("streams: grammar-generated request pipelines (1-3 requests; CL and chunked bodies with extensions/trailers; "
         "origin/absolute/asterisk/authority targets) and responses (lax and strict), each also mutated by one of the "
